@@ -4,7 +4,7 @@
 # Confirms: patch applies, workspace builds, the 36 existing tests pass with it, the demo fails with it and passes without.
 set -u
 ID="$1"
-WT="/tmp/wt-$ID"
+WT="${WTP:-/tmp/wt-}$ID"
 export CARGO_NET_OFFLINE=true
 export CARGO_TARGET_DIR="$WT/target"
 cd "$WT" || exit 2
@@ -12,8 +12,8 @@ cd "$WT" || exit 2
 for v in a b c; do
     S="$WT/_seeded/$v"
     [ -f "$S/patch.diff" ] || continue
-    OUT="/verif/seeded/$ID-$v"
-    LOG="/tmp/verify-$ID-$v.log"
+    OUT="/verif/seeded/$ID-${TAG:-}$v"
+    LOG="/tmp/verify-$ID-${TAG:-}$v.log"
     : >"$LOG"
     git checkout -q -- . 2>/dev/null
     RUN="$S/demo/run.sh"
@@ -31,7 +31,7 @@ for v in a b c; do
     git clean -fdq -e _seeded -e target -e Cargo.lock 2>/dev/null
     VERDICT="REJECT"
     if [ $RC_HEAD -eq 0 ] && [ $RC_TESTS -eq 0 ] && [ $RC_PATCH -ne 0 ] && [ $RC_PATCH -ne 124 ]; then VERDICT="KEEP"; fi
-    echo "$ID-$v: demo@HEAD rc=$RC_HEAD tests-with-patch rc=$RC_TESTS (passed=$NPASS) demo-with-patch rc=$RC_PATCH => $VERDICT"
+    echo "$ID-${TAG:-}$v: demo@HEAD rc=$RC_HEAD tests-with-patch rc=$RC_TESTS (passed=$NPASS) demo-with-patch rc=$RC_PATCH => $VERDICT"
     if [ "$VERDICT" = "KEEP" ]; then
         mkdir -p "$OUT"
         cp "$S/patch.diff" "$OUT/patch.diff"
